@@ -247,6 +247,13 @@ def cc_stage(tier, seed, r):
     # longer seeded histories on top of the exhaustive short ones
     for _ in range(2000 if quick else 60000):
         hists.append([r.choice(ops) for _ in range(r.choice([6, 10, 16, 30]))])
+    # many SEPARATE congestion events (each after the previous recovery period has ended), with MTU changes
+    # before, between and after: the floor of two datagrams is only reached after half a dozen of them
+    for ev in ("l", "c", "L", "p"):
+        for k in (4, 6, 8, 12, 20):
+            for pre in ([], ["m"], ["u"], ["s", "s", "a"]):
+                for mid in ([], ["m"], ["M"], ["s", "a", "e"]):
+                    hists.append(pre + [x for _ in range(k) for x in [ev, "t"] + mid] + ["u", ev, "t", "M", ev])
     d = V.workdir("run_C12cc")
     shards = V.NPROC
     per = (len(hists) + shards - 1) // shards
